@@ -113,6 +113,81 @@ async fn new_link(ops: &str) -> Option<(Arc<S2mClient>, Peer)> {
   Some((client, peer))
 }
 
+
+/// Pooled mode (the production default, `max_idle_connections > 1`): the link is lost while the client is idle; the next
+/// request must end in a result — an error, or an answer over a new link — and never in a panic or a hang
+/// (regression of DESIGN D30: `detach` used `block_in_place`, which panics on the server's current-thread runtimes).
+async fn pooled_link_loss(fails: &mut Vec<String>, t: &mut String) {
+  let (a1, b1) = match UnixStream::pair() { Ok(p) => p, Err(_) => return };
+  let (a2, b2) = match UnixStream::pair() { Ok(p) => p, Err(_) => return };
+  let mut cfg = narwhal_modulator::config::S2mClientConfig::default();
+  cfg.network = "unix".into();
+  cfg.socket_path = "/nonexistent".into();
+  cfg.max_idle_connections = 4;
+  cfg.heartbeat_interval = Duration::from_secs(3600);
+  cfg.connect_timeout = Duration::from_millis(500);
+  cfg.timeout = Duration::from_millis(TIMEOUT_MS);
+  cfg.payload_read_timeout = Duration::from_millis(100);
+  cfg.backoff_initial_delay = Duration::from_millis(1);
+  cfg.backoff_max_delay = Duration::from_millis(2);
+  cfg.backoff_max_retries = 2;
+  // `dial` pops from the end: a1 first, then a2
+  let Ok(client) = S2mClient::new_with_dialer(cfg, Arc::new(PairDialer(Mutex::new(vec![a2, a1])))) else { return };
+  let client = Arc::new(client);
+  let ack = "S2M_CONNECT_ACK application_protocol=TEST/1.0 heartbeat_interval=3600000 max_inflight_requests=8 max_message_size=4096 max_payload_size=1024 operations:1=auth\n";
+  let mut p1 = Peer { s: b1, buf: Vec::new() };
+  let mut p2 = Peer { s: b2, buf: Vec::new() };
+  // first use: handshake on link 1
+  let c = client.clone();
+  let h = tokio::task::spawn_local(async move { c.operations().await.map(|_| ()) });
+  if !matches!(p1.next(1000).await, Some((Message::S2mConnect(_), _))) {
+    return;
+  }
+  p1.send(ack.as_bytes()).await;
+  let _ = h.await;
+  // the modulator goes away while the client is idle
+  drop(p1);
+  tokio::time::sleep(Duration::from_millis(5)).await;
+  // the next two uses: whatever they conclude, they must conclude
+  for round in 0..2 {
+    let c = client.clone();
+    let h = tokio::task::spawn_local(async move { c.authenticate(AuthRequest { token: "tok".into() }).await.map(|_| ()) });
+    // serve link 2 if the client dials it
+    let served = tokio::time::timeout(Duration::from_millis(5 * TIMEOUT_MS), async {
+      loop {
+        match p2.next(50).await {
+          Some((Message::S2mConnect(_), _)) => p2.send(ack.as_bytes()).await,
+          Some((Message::S2mAuth(q), _)) => {
+            p2.send(format!("S2M_AUTH_ACK id={} succeeded=true username=u\n", q.id).as_bytes()).await;
+          },
+          _ => {},
+        }
+        if h.is_finished() {
+          break;
+        }
+      }
+    })
+    .await;
+    let outcome = if served.is_err() {
+      "hang".to_string()
+    } else {
+      match h.await {
+        Ok(Ok(())) => "ok".to_string(),
+        Ok(Err(_)) => "error".to_string(),
+        Err(e) if e.is_panic() => "panic".to_string(),
+        Err(_) => "cancelled".to_string(),
+      }
+    };
+    let _ = writeln!(t, "# pooled link loss, use {round}: {outcome}");
+    if outcome == "panic" || outcome == "hang" {
+      fails.push(format!(
+        "C16: [pooled-link-loss] after the modulator link was lost while idle (pooled client, max_idle_connections=4), the next delegated request ended in a {outcome} instead of a result"
+      ));
+      break;
+    }
+  }
+}
+
 pub async fn run_suite(seed: u64, cases: usize) -> String {
   let mut r = Rng::new(seed ^ 0x52a);
   let mut t = String::new();
@@ -315,6 +390,7 @@ pub async fn run_suite(seed: u64, cases: usize) -> String {
       link = None;
     }
   }
+  pooled_link_loss(&mut fails, &mut t).await;
   for f in &fails {
     let _ = writeln!(t, "oracle-failure case=0 {f}");
   }
